@@ -190,7 +190,7 @@ def local_trait_candidates(interp, c, self_ty, nargs):
                 if hdr[0] is not None and ty_head(hdr[1]) == ty_head(S) and hdr[1].startswith('&') == S.startswith('&') \
                         and (ret == S or S in [norm_ty(a) for a in generic_args(ret)] or not ptys or c.trait_head in ('AbsDiffEq',)):
                     score = 1
-            elif ret == S:
+            elif ret == S or (ty_head(ret) in ('Result', 'Option') and generic_args(ret) and norm_ty(generic_args(ret)[0]) == S):
                 score = 1
         if score == 0:
             continue
